@@ -177,3 +177,72 @@ fn f04l_open_type_content_cannot_leave_its_length() {
     let mut r = R::from((&bytes[..], n));
     assert!(r.read::<v1::S>().is_err());
 }
+
+#[test]
+fn f10a_bitstring_fragmentation_round_trips() {
+    use asn1rs::protocol::per::unaligned::buffer::BitBuffer;
+    use asn1rs::protocol::per::{PackedRead, PackedWrite};
+    for bits in [0u64, 1, 16383, 16384, 16385, 20000, 32768, 65535, 65536, 65537, 70000, 131072, 131077, 200001] {
+        let bytes_len = ((bits + 7) / 8) as usize;
+        let mut src: Vec<u8> = (0..bytes_len).map(|i| (i * 31 + 7) as u8).collect();
+        if bits % 8 != 0 {
+            let last = src.len() - 1;
+            src[last] &= 0xFFu8 << (8 - bits % 8);
+        }
+        let mut w = BitBuffer::default();
+        w.write_bitstring(None, None, false, &src, 0, bits).unwrap();
+        let n = w.bit_len();
+        let bytes: Vec<u8> = w.into();
+        let mut pos = 0usize;
+        let (buf, len) = {
+            let mut r = (&bytes[..], &mut pos);
+            r.read_bitstring(None, None, false).unwrap()
+        };
+        assert_eq!(len, bits, "bit length for {}", bits);
+        assert_eq!(buf, src, "content for {}", bits);
+        assert_eq!(pos, n, "consumed bits for {}", bits);
+    }
+}
+
+#[test]
+fn f10c_full_i64_range_round_trips() {
+    use asn1rs::protocol::per::unaligned::buffer::BitBuffer;
+    use asn1rs::protocol::per::{PackedRead, PackedWrite};
+    for (lb, ub) in [(i64::MIN, i64::MAX), (i64::MIN, 0), (-1, i64::MAX), (1 << 61, 3 << 61), (i64::MIN, i64::MIN + 5)] {
+        for v in [lb, ub, lb / 2 + ub / 2, lb + 1, ub - 1] {
+            let mut w = BitBuffer::default();
+            w.write_constrained_whole_number(lb, ub, v).unwrap();
+            let n = w.bit_len();
+            let bytes: Vec<u8> = w.into();
+            let mut pos = 0usize;
+            let mut r = (&bytes[..], &mut pos);
+            assert_eq!(r.read_constrained_whole_number(lb, ub).unwrap(), v);
+            assert_eq!(pos, n);
+        }
+    }
+    // an offset beyond the range is an error, not a panic or a wrapped value
+    let bytes = vec![0xFFu8; 8];
+    let mut pos = 0usize;
+    let mut r = (&bytes[..], &mut pos);
+    assert!(r.read_constrained_whole_number(1 << 61, 3 << 61).is_err());
+}
+
+#[test]
+fn f10_inadmissible_arguments_are_errors() {
+    use asn1rs::protocol::per::unaligned::buffer::BitBuffer;
+    use asn1rs::protocol::per::{PackedRead, PackedWrite};
+    let r = std::panic::catch_unwind(|| {
+        let mut w = BitBuffer::default();
+        let a = w.write_non_negative_binary_integer(Some(10), Some(20), 5).is_err();
+        let b = w.write_non_negative_binary_integer(Some(10), Some(5), 7).is_err();
+        let c = w.write_non_negative_binary_integer(Some(10), Some(20), 25).is_err();
+        let d = w.write_2s_compliment_binary_integer(65, 1).is_err();
+        let e = w.write_enumeration_index(0, false, 0).is_err();
+        let bytes = vec![0u8; 4];
+        let mut pos = 0usize;
+        let mut rd = (&bytes[..], &mut pos);
+        let f = rd.read_enumeration_index(0, false).is_err();
+        (a, b, c, d, e, f)
+    });
+    assert_eq!(r.ok(), Some((true, true, true, true, true, true)));
+}
